@@ -164,6 +164,71 @@ func negStartEmptyReading(spec gens.JPExpr, data any, got []string, ordered bool
 	return false
 }
 
+// trailingDescent judges x.. : "" when the result is one of the accepted
+// multisets, otherwise missing | extra | wrong-elements.
+func trailingDescent(spec gens.JPExpr, data any, got []string) string {
+	for _, f := range spec[:len(spec)-1] {
+		if f.K == "desc" || f.K == "filter" {
+			return "" // start nodes overlap or need a filter verdict: left to the other oracles
+		}
+	}
+	var starts []pathref.Hit
+	if len(spec) == 2 {
+		starts = []pathref.Hit{{Value: data}}
+	} else {
+		ok := false
+		for _, v := range pathref.Variants {
+			r := pathref.SelectSpec(spec[:len(spec)-1], data, v)
+			if r.Open {
+				return ""
+			}
+			// the prefix itself is judged on its own; take the reading Get agrees with
+			pre, _, _ := safeGet(spec[:len(spec)-1].Build(), data)
+			if sameMulti(canonList(pre), hitsList(r.Hits)) {
+				starts, ok = r.Hits, true
+				break
+			}
+		}
+		if !ok {
+			return ""
+		}
+	}
+	var below func(v any, out []string) []string
+	below = func(v any, out []string) []string {
+		switch t := v.(type) {
+		case []any:
+			for _, e := range t {
+				out = below(e, append(out, snap.Dump(e)))
+			}
+		case map[string]any:
+			for _, e := range t {
+				out = below(e, append(out, snap.Dump(e)))
+			}
+		}
+		return out
+	}
+	var none, all, containers []string
+	for _, h := range starts {
+		d := below(h.Value, nil)
+		none = append(none, d...)
+		all = append(append(all, snap.Dump(h.Value)), d...)
+		containers = append(containers, d...)
+		if k, _ := gens.NodeKind(h.Value); k != "scalar" {
+			containers = append(containers, snap.Dump(h.Value))
+		}
+	}
+	if sameMulti(got, none) || sameMulti(got, all) || sameMulti(got, containers) {
+		return ""
+	}
+	switch {
+	case len(got) < len(none):
+		return "missing"
+	case len(got) > len(all):
+		return "extra"
+	}
+	return "wrong-elements"
+}
+
 // boundClass classifies an index / bound relative to the array length.
 func boundClass(b, n int, omitted bool) string {
 	switch {
@@ -317,7 +382,15 @@ func judge(c *core.Ctx, spec gens.JPExpr, data any, raw func() any) {
 		return
 	}
 	if spec[len(spec)-1].K == "desc" {
-		return // bare trailing descent: no-panic and determinism only
+		// bare trailing descent: whether the start node itself is selected is not
+		// fixed anywhere (DESIGN §3 C05), but every reading selects each nested
+		// node exactly once: the result must be, as a multiset, the descendants
+		// of the start nodes - without the start nodes, with them, or with the
+		// start nodes that are containers.
+		if n := trailingDescent(spec, data, gl); n != "" {
+			c.Fail(core.Sig("Get", "trailing-descent", n), mk(), size, "every node below the start nodes exactly once", strings.Join(gl, " "))
+		}
+		return
 	}
 	ordered := !hasDescent(spec) && !gens.HasMultiKeyMap(data)
 	ok, open, exp, kind := verdict(spec, data, gl, ordered)
